@@ -265,10 +265,16 @@ def rule_r1(repo: Repo, res: Result) -> None:
         a2 = g.arg(2, "level_limit")
         pl = _param_leaves(a2, ge) if a2 is not None else set()
         ok = "level_limit" in pl and pl <= {"level_limit", "root_path", "module_path"}
-        res.add("C04.R1", f"{tag}::graph depth <- level_limit", ok, "the level limit (shifted by the root/module offset) reaches the graph" if ok else f"the graph's level limit is built from {sorted(pl) or 'no option'}", where(g.fi, g.node), kind="flow")
+        if not ok and ("level_limit" in pl or _has_lost_parts(a2)):
+            res.undecide("C04.R1", f"{tag}::graph depth <- level_limit", f"cannot follow how the graph's level limit `{show(a2, 80) if a2 is not None else '?'}` is computed", where(g.fi, g.node))
+        else:
+            res.add("C04.R1", f"{tag}::graph depth <- level_limit", ok, "the level limit (shifted by the root/module offset) reaches the graph" if ok else f"the graph's level limit is built from {sorted(pl) or 'no option'}", where(g.fi, g.node), kind="flow")
         a0 = g.arg(0, "all_modules")
         ok = a0 is not None and any(x[0] == "mcall" and x[2] == "parse" for x in subterms(a0))
-        res.add("C04.R1", f"{tag}::graph modules <- scan result", ok, "the graph is built from the scanned modules" if ok else "the module list of the graph does not come from the scan", where(g.fi, g.node), kind="flow")
+        if not ok and _has_lost_parts(a0):
+            res.undecide("C04.R1", f"{tag}::graph modules <- scan result", f"cannot follow where the module list `{show(a0, 80)}` of the graph comes from", where(g.fi, g.node))
+        else:
+            res.add("C04.R1", f"{tag}::graph modules <- scan result", ok, "the graph is built from the scanned modules" if ok else "the module list of the graph does not come from the scan", where(g.fi, g.node), kind="flow")
 
 
 def _has_lost_parts(t: Term | None) -> bool:
@@ -617,11 +623,24 @@ class _Names:
             src = src[2][0]
         return src == param
 
+    def _is_element_of(self, t: Term, param: Term) -> bool:
+        """`t` is an element of the parameter: the variable of a loop over it, or `param[i]` for an index running over all of it."""
+        if t[0] == "elem":
+            return self._is_iter_of(t[1], param)
+        if t[0] == "idx" and self._is_iter_of(t[1], param):
+            cnt = _counter(t[2])
+            return cnt is not None and cnt[1] == 0 and is_const(cnt[2], 0) and _len_offset(cnt[3], t[1]) == 0
+        return False
+
     def symbol(self, t: Term):
         """(kind, detail) for a term that *is* a name symbol, else None."""
         if t[0] == "elem" and self._is_iter_of(t[1], self.modules):
             return ("SCANNED", t)
-        if t[0] == "mcall" and t[2] in ("importer", "importee", "importer_parent_modules", "importee_parent_modules") and t[1][0] == "elem" and self._is_iter_of(t[1][1], self.imports):
+        if t[0] == "idx" and self._is_iter_of(t[1], self.modules):
+            cnt = _counter(t[2])
+            if cnt is not None and cnt[1] == 0 and is_const(cnt[2], 0) and _len_offset(cnt[3], t[1]) == 0:
+                return ("SCANNED", t)  # modules[i] for i in range(len(modules))
+        if t[0] == "mcall" and t[2] in ("importer", "importee", "importer_parent_modules", "importee_parent_modules") and self._is_element_of(t[1], self.imports):
             return ("IMPORTEE" if t[2].startswith("importee") else "IMPORTER", t)
         pos = _chain_pos(t)
         if pos is not None:
@@ -837,19 +856,22 @@ def rule_r4(repo: Repo, res: Result) -> None:
             continue
         f = f_and(e.pc)
         missing = []
+        too_big = False
         for x in ends:
             # `x in graph` / `graph.has_node(x)` / `x in graph.nodes`, evaluated alternative by alternative for a chosen name
             tests_ = [sx.truth(("cmp", "in", x, graph)), sx.truth(("mcall", graph, "has_node", (x,), ())), sx.truth(("cmp", "in", x, ("attr", graph, "nodes")))]
-            small = len(atoms_of(f)) <= 12
-            if not any(small and len(atoms_of(f) | atoms_of(t_)) <= 14 and implies(f, t_) for t_ in tests_):
+            if any(len(atoms_of(f) | atoms_of(t_)) > 16 for t_ in tests_):
+                too_big = True
+                continue
+            if not any(implies(f, t_) for t_ in tests_):
                 present = [key for key in atoms_of(f) if _is_presence_test(sx.atoms.get(key), x, graph)]
                 if not any(implies(f, atom(key)) for key in present):
                     missing.append(x)
         ok = not missing
         kinds_ = sorted({s_[0] for x in ends for s_ in names.sources(x)})
         unread = [key for key in atoms_of(f) if (t_ := sx.atoms.get(key)) is not None and any(y[:2] == graph[:2] for y in subterms(t_)) and not _is_node_test(t_, graph) and not _is_edge_test(t_, graph)]
-        if not ok and unread:
-            res.undecide("C04.R4", repo.key(e.fi, stmt_of(e.node)) + f" [edge end from imported name: {', '.join(kinds_)}]", f"cannot tell whether `{unread[0][:120]}` tests that both ends are nodes", where(e.fi, e.node))
+        if too_big or (not ok and unread):
+            res.undecide("C04.R4", repo.key(e.fi, stmt_of(e.node)) + f" [edge end from imported name: {', '.join(kinds_)}]", "the condition of the edge creation is too large to decide whether both ends are tested to be nodes" if too_big else f"cannot tell whether `{unread[0][:120]}` tests that both ends are nodes", where(e.fi, e.node))
             continue
         res.add("C04.R4", repo.key(e.fi, stmt_of(e.node)) + f" [edge end from imported name: {', '.join(kinds_)}]", ok, "edges to imported names are only added between existing nodes" if ok else f"`{norm(e.node, 60)}` adds an edge whose end `{show(missing[0], 80)}` comes from an imported name without testing that it is a node: networkx creates the missing node, so functions / classes / unresolved names become modules", where(e.fi, e.node), kind="dominance")
     # ---- the hierarchy of every scanned module: get_parent_modules(module) + [module]
@@ -897,7 +919,11 @@ def rule_r4(repo: Repo, res: Result) -> None:
         if ch[1] == "full" and span[1] == -1 and span[0] in (0, 1) and okc:
             child_ok = True
     e0 = direct[0][0] if direct else None
-    if not child_ok and (opaque or "type(" in child_why or "isinstance(" in child_why):
+    unknown_nodes = [e_ for e_, a_ in node_events if not names.sources(a_) or any(s_[0].startswith("OTHER") for s_ in names.sources(a_))]
+    if not child_ok and not direct and unknown_nodes:
+        res.undecide("C04.R4", f"{tag}::every scanned module becomes a node", f"cannot tell which names `{norm(unknown_nodes[0].node, 60)}` creates nodes for", where(unknown_nodes[0].fi, unknown_nodes[0].node))
+        child_ok = None
+    elif not child_ok and (opaque or "type(" in child_why or "isinstance(" in child_why):
         res.undecide("C04.R4", f"{tag}::every scanned module becomes a node", lost or f"cannot interpret the condition of the node creation ({child_why})", where(e0.fi, e0.node) if e0 else where(init, init.node))
         child_ok = None
     if child_ok is not None:
